@@ -114,3 +114,16 @@ func VerifSession(t *MutableTree) (nonce uint32, orphans int, poisoned bool, pen
 
 // VerifExport calls ImmutableTree.Export with the tree's own nodeDB (the parameter type is unexported).
 func VerifExport(t *ImmutableTree) (*Exporter, error) { return t.Export(t.ndb) }
+
+// VerifBatchSize returns the byte size of the shared, not yet committed write batch (state digests only:
+// anything a finished session leaves staged there would be flushed by the next Commit).
+func VerifBatchSize(t *MutableTree) int {
+	if t.ndb.batch == nil {
+		return -1
+	}
+	n, err := t.ndb.batch.GetByteSize()
+	if err != nil {
+		return -2
+	}
+	return n
+}
